@@ -412,7 +412,7 @@ def run(ctx):
                 "pandas Index / Series, dict keys; text site ids); CONFUSABLE values: option values / option names / site ids "
                 "drawn from families of distinct integers and identifier strings that differ only by letter case, "
                 "leading / trailing / inner underscores, digit suffixes and their leading zeros, prefix / suffix / "
-                "infix, one character of a 24-80 (thorough: 400) character identifier, words reading as Python / JSON "
+                "infix, one character of a 24-60 (thorough: 400) character identifier, words reading as Python / JSON "
                 "constants, non-ASCII letters with their case / compatibility twins, sign, factor 10, repeated / "
                 "reversed digits, neighbours of 2**31 .. 10**30, an integer beside identifiers carrying its digits "
                 "(mixed integer / text lists) - find asked for every value of every option, for the family members "
@@ -580,7 +580,7 @@ def run(ctx):
     #      comparison / normalisation / pattern match would take for one another.  find is asked for every
     #      value of every option, for members of the same family that are not values of the option, and for
     #      two options at once; enumeration, get_task, to_dict and the round trip are checked on the same grids
-    maxlen = ctx.scale(80, 400)
+    maxlen = ctx.scale(60, 400)
 
     def spec_term(spec):
         return "[" + "; ".join(
@@ -709,8 +709,8 @@ def run(ctx):
                 k2 = rng.choice([k for k in IDENTS if k not in spec])
                 spec[k2] = rng.sample(rng.choice([INTS, IDENTS]), rng.randint(1, 4))
             confusable_manager(spec, near, (kind,))
-    for _ in range(ctx.scale(70, 1500)):
-        confusable_manager(*conf_spec(rng, ctx.scale(40, 160), maxlen))
+    for _ in range(ctx.scale(60, 1500)):
+        confusable_manager(*conf_spec(rng, ctx.scale(24, 160), maxlen))
 
     # ---- SiteBatch.search on CONFUSABLE site ids (all integers or all texts, no duplicates): every site is
     #      searched and must be in the batch returned, in that batch only; members of the family that are not
